@@ -215,9 +215,15 @@ def rule_batch(ctx) -> None:
 
 def rule_esc(ctx) -> None:
     from ..util import total_helpers
-    fn = ctx.func(APPLY)
+    n_sites = 0
+    bf, _h = _bust_fn(ctx)
+    for fn in ([ctx.func(APPLY)] + ([bf] if bf.qual != APPLY else [])):
+        n_sites += _esc_sites(ctx, fn, total_helpers(ctx, fn))
+    ctx.floor("C04.ESC", "store/cache call sites in apply_changes", n_sites, 3)
+
+
+def _esc_sites(ctx, fn, allow) -> int:
     cfg = ctx.cfg(fn)
-    allow = total_helpers(ctx, fn)
     n_sites = 0
     for n in cfg.nodes:
         for c in node_calls(n):
@@ -242,14 +248,44 @@ def rule_esc(ctx) -> None:
             ctx.check(bad is None, "C04.ESC", key, fn.loc(c),
                       "enclosed by `except Exception` whose handler body cannot raise",
                       f"the catch-all handler can itself raise at `{src(bad)[:60] if bad is not None else ''}`")
-    ctx.floor("C04.ESC", "store/cache call sites in apply_changes", n_sites, 3)
+    return n_sites
+
+
+def _bust_fn(ctx):
+    """the function that holds the on-apply invalidation: apply_changes itself or the module helper it calls"""
+    ap = ctx.func(APPLY)
+    if find_calls(ctx, ap, lambda c, nm: call_tail(c) == "invalidate_namespace"):
+        return ap, None
+    for n, c in find_calls(ctx, ap, lambda c, nm: True):
+        r = ctx.prog.callee(ap, c)
+        if r and r[0] == "func" and r[1].startswith("clematis.engine.apply:") and r[1] in ctx.prog.funcs:
+            g = ctx.prog.funcs[r[1]]
+            if any(isinstance(x, ast.Call) and call_tail(x) == "invalidate_namespace" for x in walk_no_defs(g.node)):
+                return g, g.name
+    return ap, None
 
 
 def rule_bust(ctx) -> None:
-    fn = ctx.func(APPLY)
+    fn, helper = _bust_fn(ctx)
+    ctx.analysed_funcs.add(fn.qual)
     cfg = ctx.cfg(fn)
     rd = ctx.rd(fn)
     pe = PathEval(ctx)
+    # "a committed turn ... invalidates the configured cache namespaces": every path of apply_changes that bumps the version
+    # (also the no-store / no-batch-API tails) reaches the invalidation before it returns
+    ap = ctx.func(APPLY)
+    acfg = ctx.cfg(ap)
+    bumps = [n for n in acfg.nodes if any(call_tail(c) == "_bump_version_etag" for c in node_calls(n))]
+    inval = [n for n in acfg.nodes if any(call_tail(c) == (helper or "invalidate_namespace") for c in node_calls(n))]
+    if helper is None:
+        inval += [n for n in acfg.nodes if n.kind == "cond" and "cache_bust_mode" in src(ctx.rd(ap).inline(n.ast, n)) or (n.kind == "cond" and "bust_mode" in src(n.ast))]
+    ctx.floor("C04.BUST", "version bumps in apply_changes", len(bumps), 1)
+    for b in bumps:
+        p = acfg.path([b], lambda m: m is acfg.exit, avoid=lambda m: m in inval, edge_ok=no_exc, include_start=False)
+        ctx.check(p is None, "C04.BUST", ctx.okey(f"{ap.qual}/bump-is-followed-by-invalidation"), ap.loc(b.ast),
+                  "every return after this version bump passes the on-apply invalidation",
+                  "apply_changes can bump the version and return without running the on-apply cache invalidation (an early-return tail): with cache busting on, the configured namespaces keep "
+                  "their entries across a turn that otherwise commits", ctx.path_witness(ap, p))
     sites = find_calls(ctx, fn, lambda c, nm: call_tail(c) == "invalidate_namespace")
     if not sites:
         ctx.violation("C04.BUST", f"{APPLY}/invalidate-missing", fn.loc(),
@@ -498,7 +534,53 @@ def rule_snapshot_written(ctx) -> None:
               "(the version etag is a counter, not a content hash)", ctx.path_witness(fn, p))
 
 
+def _config_holders(fn: Func, ctxp: str) -> Set[str]:
+    """attribute names of the ctx object from which fn takes the configuration: ctx.cfg / ctx.config / getattr(ctx, "<name>") /
+    `for attr in ("cfg", "config")`"""
+    out: Set[str] = set()
+    for x in walk_no_defs(fn.node):
+        if isinstance(x, ast.Attribute) and isinstance(x.value, ast.Name) and x.value.id == ctxp and x.attr in ("cfg", "config"):
+            out.add(x.attr)
+        if isinstance(x, ast.Call) and dotted(x.func) in ("getattr", "hasattr") and len(x.args) >= 2 and isinstance(x.args[0], ast.Name) and x.args[0].id == ctxp:
+            k = const_str(x.args[1])
+            if k in ("cfg", "config"):
+                out.add(k)
+            elif isinstance(x.args[1], ast.Name):
+                for y in walk_no_defs(fn.node):
+                    if isinstance(y, ast.For) and isinstance(y.target, ast.Name) and y.target.id == x.args[1].id and isinstance(y.iter, (ast.Tuple, ast.List)):
+                        out |= {const_str(e) for e in y.iter.elts if const_str(e) in ("cfg", "config")}
+    return out
+
+
+def rule_config_holders(ctx) -> None:
+    """"the configured cadence / cache busting": one turn has one configuration.  run_turn reads it (kill switch, every stage
+    gate) from ctx.cfg or ctx.config, the snapshot writer from both; the apply stage must look in the same places - a ctx that
+    carries its validated config in ctx.cfg only (what run_smoke_turn and the console build) otherwise commits with apply's
+    built-in defaults: snapshot cadence 1 instead of the configured one, no cache busting."""
+    core = ctx.func("clematis.engine.orchestrator.core:_get_cfg")
+    want = _config_holders(core, core.params[0])
+    if want != {"cfg", "config"}:
+        raise AnalysisError(f"anchor-vanished: run_turn's config accessor reads {sorted(want)}")
+    n = 0
+    quals = sorted(f.qual for f in ctx.prog.module("clematis.engine.apply").funcs.values() if f.params and _config_holders(f, f.params[0])) + ["clematis.engine.snapshot:_get_cfg"]
+    for q in quals:
+        fn = ctx.func(q)
+        got = _config_holders(fn, fn.params[0])
+        if not got:
+            continue
+        n += 1
+        for h in sorted(want - got):
+            ctx.violation("C04.CAD", f"{fn.qual}/config-holder:{h}", fn.loc(),
+                          f"{fn.name} takes the t4 configuration from ctx.{'/ctx.'.join(sorted(got))} only, while run_turn (kill switch, stage gates) and the snapshot writer also accept ctx.{h}: "
+                          f"for a ctx that carries its config in ctx.{h} only, a committed turn uses apply's built-in defaults - a snapshot on every turn instead of the configured cadence and no "
+                          "on-apply cache invalidation")
+        if not (want - got):
+            ctx.holds("C04.CAD", f"{fn.qual}/config-holders", fn.loc(), f"{fn.name} reads the configuration from ctx.cfg and ctx.config like run_turn")
+    ctx.floor("C04.CAD", "configuration accessors of the apply / snapshot stage", n, 3)
+
+
 def run(ctx) -> None:
+    rule_config_holders(ctx)
     rule_once(ctx)
     rule_batch(ctx)
     rule_esc(ctx)
